@@ -9,6 +9,7 @@ package main
 //	smclient wd r=<R> beh=<cycle/cycle/..>                  watchdog cycles against a scripted peer
 
 import (
+	"os"
 	"encoding/hex"
 	"fmt"
 	"net"
@@ -148,6 +149,8 @@ func ceaFor(kind string, hbh, e2e uint32) []byte {
 		return ceaSpec{rc: 2001, host: 1, realm: 1}.bytes(hbh, e2e)
 	case "U":
 		return ceaSpec{rc: 2001, host: 1, realm: 1, apps: []string{"Bx"}}.bytes(hbh, e2e)
+	case "Y": // shares only application 16777999, which the embedded dictionaries do not have
+		return ceaSpec{rc: 2001, host: 1, realm: 1, apps: []string{"Vy"}}.bytes(hbh, e2e)
 	}
 	return nil
 }
@@ -207,7 +210,7 @@ func (p *peerScript) hook(c *memConn, b []byte) (int, error) {
 		first()
 	}
 	switch react {
-	case "cer:S", "cer:F", "cer:M", "cer:A", "cer:U":
+	case "cer:S", "cer:F", "cer:M", "cer:A", "cer:U", "cer:Y":
 		c.deliver(ceaFor(react[4:], hbh, e2e))
 	case "cer:P": // an application answer instead of a CEA: must not reach the application before the handshake
 		c.deliver(simpleMsg(272, 0, 4, 700+hbh%7, 700, diam.NewAVP(268, 0x40, 0, datatype.Unsigned32(2001))))
@@ -220,6 +223,12 @@ func (p *peerScript) hook(c *memConn, b []byte) (int, error) {
 		seg = append(seg, ceaFor("S", hbh, e2e)...)
 		seg = append(seg, simpleMsg(272, 0, 4, 700+hbh%7, 700, diam.NewAVP(268, 0x40, 0, datatype.Unsigned32(2001)))...)
 		c.deliver(seg)
+	case "cer:C": // the peer sends a CER of its own (acceptable) and an application answer, and only then its CEA:
+		// a dialled connection is not a listener - nothing of that reaches the application before the CEA
+		c.deliver(cerSpec{host: 1, realm: 1, apps: []string{"Au"}, flags: 0x80, hbh: 4242, e2e: 4242}.bytes())
+		c.deliver(simpleMsg(272, 0, 4, 700+hbh%7, 700, diam.NewAVP(268, 0x40, 0, datatype.Unsigned32(2001))))
+		waitFor(c.readerParked, time.Second)
+		c.deliver(ceaFor("S", hbh, e2e))
 	case "cer:Z": // in ONE segment: the success CEA and, right behind it, an application answer
 		seg := append([]byte(nil), ceaFor("S", hbh, e2e)...)
 		seg = append(seg, simpleMsg(272, 0, 4, 7777, 7777, diam.NewAVP(268, 0x40, 0, datatype.Unsigned32(2001)))...)
@@ -238,6 +247,9 @@ func (p *peerScript) hook(c *memConn, b []byte) (int, error) {
 	case "dwr:V": // very late but in time: one and a half watchdog intervals after the request
 		// (only scripted for clients whose RetransmitInterval is three watchdog intervals)
 		go func() { time.Sleep(clientInterval * 3 / 2); c.deliver(dwaFor(2001, hbh, e2e)) }()
+	case "dwr:K": // answered at once; the peer spells its Origin-Host with capitals this time
+		c.deliver(simpleMsg(280, 0, 0, hbh, e2e, diam.NewAVP(268, 0x40, 0, datatype.Unsigned32(2001)),
+			diam.NewAVP(264, 0x40, 0, datatype.DiameterIdentity("SRV.Example.NET")), diam.NewAVP(296, 0x40, 0, datatype.DiameterIdentity("example.net"))))
 	case "dwr:O": // answered at once, by a peer whose Origin-State-Id differs from answer to answer
 		// (RFC 6733 8.16: it changes when the peer has lost state, e.g. restarted behind a proxy)
 		p.mu.Lock()
@@ -259,11 +271,40 @@ func (p *peerScript) hook(c *memConn, b []byte) (int, error) {
 	return len(b), nil
 }
 
+// customClientDict: the base dictionary plus an application of the operator's own
+var customDictOnce sync.Once
+var customDictP *dict.Parser
+
+func customClientDict() *dict.Parser {
+	customDictOnce.Do(func() {
+		p, err := dict.NewParser()
+		if err != nil {
+			return
+		}
+		repo := os.Getenv("VERIF_REPO")
+		if repo == "" {
+			repo = "/repo"
+		}
+		if err := p.LoadFile(repo + "/diam/dict/testdata/base.xml"); err != nil {
+			return
+		}
+		x := `<?xml version="1.0" encoding="UTF-8"?><diameter><application id="16777999" type="auth" name="Operator-Own"><command code="8388999" short="OO" name="Operator-Own"><request><rule avp="Origin-Host" required="true" max="1"/></request><answer><rule avp="Origin-Host" required="true" max="1"/></answer></command></application></diameter>`
+		if err := p.Load(strings.NewReader(x)); err != nil {
+			return
+		}
+		customDictP = p
+	})
+	return customDictP
+}
+
 // the application lists a client is configured with (am=<k>)
 func clientApps(k int) (sv, auth, acct, vsa []*diam.AVP) {
 	u := func(code, v uint32) *diam.AVP { return diam.NewAVP(code, 0x40, 0, datatype.Unsigned32(v)) }
 	grp := func(ms ...*diam.AVP) *diam.AVP { return diam.NewAVP(260, 0x40, 0, &diam.GroupedAVP{AVP: ms}) }
 	switch k {
+	case 3: // one application, which only the client's own dictionary knows (am=3 also gives the client that dictionary)
+		// (advertised as a vendor-specific application, like 3GPP ones)
+		return []*diam.AVP{u(265, 10415)}, nil, nil, []*diam.AVP{grp(u(266, 10415), u(258, 16777999))}
 	case 1: // several vendor-specific applications of one vendor, Vendor-Id first (RFC layout), two auth applications
 		return []*diam.AVP{u(265, 10415), u(265, 13019)}, []*diam.AVP{u(258, 4), u(258, 1)}, []*diam.AVP{u(259, 3)},
 			[]*diam.AVP{grp(u(266, 10415), u(258, 16777251)), grp(u(266, 10415), u(258, 16777238)), grp(u(266, 10415), u(259, 16777251))}
@@ -289,7 +330,12 @@ func newClientRI(machine *sm.StateMachine, r int, wd bool, ri int) *sm.Client {
 
 func newClientApps(machine *sm.StateMachine, r int, wd bool, am int) *sm.Client {
 	sv, auth, acct, vsa := clientApps(am)
+	var own *dict.Parser
+	if am == 3 {
+		own = customClientDict()
+	}
 	return &sm.Client{
+		Dict:    own,
 		Handler: machine, MaxRetransmits: uint(r), RetransmitInterval: clientInterval,
 		EnableWatchdog: wd, WatchdogInterval: clientInterval,
 		AuthApplicationID: auth, AcctApplicationID: acct, VendorSpecificApplicationID: vsa, SupportedVendorID: sv,
@@ -693,7 +739,7 @@ func genSMClient(r *RNG, n int, op string, emit func(string)) {
 			R := r.Intn(4)
 			var beh []string
 			for k := 0; k < R+1; k++ {
-				b := []string{"N", "N", "P", "S", "S", "F", "M", "A", "U", "D", "W", "X", "Z"}[r.Intn(13)]
+				b := []string{"N", "N", "P", "S", "S", "F", "M", "A", "U", "D", "W", "X", "Z", "C", "Y"}[r.Intn(15)]
 				beh = append(beh, b)
 				if b != "N" && b != "P" && b != "W" {
 					break
@@ -720,6 +766,15 @@ func genSMClient(r *RNG, n int, op string, emit func(string)) {
 			}
 			if r.Chance(30) {
 				line += fmt.Sprintf(" am=%d", 1+r.Intn(2))
+			} else if r.Chance(8) {
+				// the client has a dictionary of its own with one more application, and advertises only that one
+				var b3 []string
+				for k := 0; k < R; k++ {
+					b3 = append(b3, "N")
+				}
+				b3 = append(b3, "Y")
+				// (no application traffic afterwards: the scripted answers are of applications this dictionary lacks)
+				line = fmt.Sprintf("smclient dial r=%d cfg=%d beh=%s post=%s wf=0 am=3", R, r.Intn(4), strings.Join(b3[len(b3)-1-r.Intn(R+1):], "."), []string{"-", "S", "S.F"}[r.Intn(3)])
 			}
 			if !strings.Contains(line, " la=") && r.Chance(15) {
 				line += fmt.Sprintf(" la6=%d", 1+r.Intn(9))
@@ -745,9 +800,9 @@ func genSMClient(r *RNG, n int, op string, emit func(string)) {
 			for c := 0; c < ncyc; c++ {
 				s := ""
 				for k := 0; k < R+1; k++ {
-					b := []string{"A", "E", "E", "L", "F", "N", "T", "O"}[r.Intn(8)]
+					b := []string{"A", "E", "E", "L", "F", "N", "T", "O", "K"}[r.Intn(9)]
 					s += b
-					if b == "A" || b == "E" || b == "L" || b == "T" || b == "O" {
+					if b == "A" || b == "E" || b == "L" || b == "T" || b == "O" || b == "K" {
 						break
 					}
 				}
